@@ -142,7 +142,16 @@ fn gen_nodes(lang: &'static Lang, rng: &mut Rng, knobs: &Knobs, depth: usize, co
                     }
                 }
                 let end_tag = if knobs.rich_tags { rng.pick(&END_TAGS).to_string() } else { "</block>".to_string() };
-                nodes.push(GNode::Blk(GBlock { tag, start, end, end_tag, body }));
+                if lang.family == Family::Md && !matches!(start.form, Form::Line(_)) && depth == 0 && rng.chance(1, 3) {
+                    // an html block inside a list item does not start in column 1
+                    let mut b = GBlock { tag, start, end, end_tag, body };
+                    b.start.form = Form::BlockOne;
+                    b.end.form = Form::BlockOne;
+                    b.body.retain(|n| matches!(n, GNode::Text(_)));
+                    nodes.push(GNode::MdListItem(vec![GNode::Blk(b)]));
+                } else {
+                    nodes.push(GNode::Blk(GBlock { tag, start, end, end_tag, body }));
+                }
             }
             5 | 6 => nodes.push(GNode::Text(rng.pick(lang.code).to_string())),
             7 => {
